@@ -400,6 +400,61 @@ class Result:
             self.extra['more_disagreements'] = self.extra.get('more_disagreements', 0) + 1
 
 
+def dep_closure(pid, root=None):
+    """the .v files Properties/<pid>.v (or root) depends on, transitively, read off coq_makefile's dependency file; None if it cannot be read"""
+    try:
+        deps = {}
+        for line in open(os.path.join(COQ, '.Makefile.d'), encoding='utf-8'):
+            m = re.match(r'^(\S+)\.vo \S+\.glob .*?: (.*)$', line)
+            if m:
+                deps[m.group(1) + '.v'] = [d[:-3] + '.v' for d in m.group(2).split() if d.endswith('.vo')]
+        root = root or 'Properties/%s.v' % pid
+        if root not in deps:
+            return None
+        seen, todo = set(), [root]
+        while todo:
+            f = todo.pop()
+            if f in seen:
+                continue
+            seen.add(f)
+            if f not in deps:
+                return None
+            todo.extend(deps[f])
+        return seen
+    except OSError:
+        return None
+
+
+def build_ok_for(pid, b):
+    """the build obligation of ONE property: a file that fails to compile counts against the property only if the property's
+    theorems (or the executable model the extracted driver is made of) depend on it.  Fail-closed: anything unclear counts."""
+    if b['ok']:
+        return True, None
+    if b.get('translator_error') or not b.get('driver_ok') or not b.get('failed'):
+        return False, None
+    failed = set()
+    for f in b['failed']:
+        m = re.match(r'^(\S+\.v):\d+$', f)
+        if not m:
+            return False, None
+        failed.add(m.group(1))
+    clo = dep_closure(pid)
+    if clo is None or (clo & failed):
+        return False, None
+    # the driver must be the one extracted from the present model (build() re-extracts only after a complete make):
+    # Extract/ExtractModel.v imports Base and Entry
+    drv = dep_closure(None, 'Model/Entry.v')
+    if drv is None or (drv & failed):
+        return False, None
+    try:
+        vos = [os.path.join(COQ, f[:-2] + '.vo') for f in drv]
+        if os.path.getmtime(DRIVER) < max(os.path.getmtime(v) for v in vos):
+            return False, None
+    except (OSError, ValueError):
+        return False, None
+    return True, sorted(failed)
+
+
 def finish(res, propinfo, t0):
     """Proof obligations + verdict + evidence.  Returns exit code."""
     pid = res.pid
@@ -434,8 +489,13 @@ def finish(res, propinfo, t0):
             lines.append('VIOLATION property=%s replay=%s%s' % (pid, p, suffix))
             reported.add(p)
         exit_code = 1
-    chk = coqchk_property(pid) if res.tier == 'thorough' and b['ok'] and pf['ok'] else None
-    proof_broken = (not b['ok']) or (not pf['ok']) or bool(hits) or (chk is not None and not chk['ok'])
+    bok, elsewhere = build_ok_for(pid, b)
+    if elsewhere:
+        # a proof file this property does not depend on fails to compile: that is another property's broken obligation, not this one's
+        res.extra['build_failures_elsewhere'] = elsewhere
+        print('NOTE property=%s files this property does not depend on fail to compile: %s' % (pid, ', '.join(elsewhere)))
+    chk = coqchk_property(pid) if res.tier == 'thorough' and bok and pf['ok'] else None
+    proof_broken = (not bok) or (not pf['ok']) or bool(hits) or (chk is not None and not chk['ok'])
     if proof_broken:
         detail = dict(property=pid, what='proof obligation / build / translator no longer checks',
                       build_ok=b['ok'], failed=b.get('failed'), translator_error=b.get('translator_error'),
